@@ -391,6 +391,26 @@ def check_wrapper(ctx, c):
             ctx.fail({"what": "store=name-missing", "method": method}, "field not stored under the new name")
         if st is False and len(srf.field_names) != 1:
             ctx.fail({"what": "store=False-stored", "method": method}, f"{srf.field_names}")
+    # chained step on a *named* stored field: source and target of the second transform are the names the caller states
+    if isinstance(st, str):
+        got1 = np.array(got, copy=True)
+        second = str(rng.choice(["inplace", "newname", "nostore"]))
+        st2 = {"inplace": True, "newname": st + "_2", "nostore": False}[second]
+        with warnings.catch_warnings():
+            warnings.simplefilter("ignore")
+            got2 = srf.transform("function", field=st, store=st2, function=lambda d: 2.0 * d + 1.0)
+        ctx.event("chained_named_transforms")
+        mech = {"what": "transform(field=name)-storage", "second": second}
+        if not np.allclose(got2, 2.0 * got1 + 1.0, rtol=1e-12, atol=0, equal_nan=True):
+            ctx.fail(dict(mech, what="transform(field=name)-reads-another-field"), f"second transform of field {st!r} did not start from it")
+        elif not np.array_equal(srf.field, base):
+            ctx.fail(dict(mech, what="transform(field=name)-alters-the-default-field"), f"after transform(field={st!r}, store={st2!r}) the field 'field' changed")
+        elif second == "inplace" and not np.array_equal(srf[st], got2):
+            ctx.fail(dict(mech, what="transform(field=name, store=True)-not-stored-under-that-name"), f"srf[{st!r}] is not the transformed field")
+        elif second != "inplace" and not np.array_equal(srf[st], got1):
+            ctx.fail(dict(mech, what="transform(field=name)-alters-its-source"), f"srf[{st!r}] changed although store={st2!r}")
+        elif second == "newname" and not np.array_equal(srf[st2], got2):
+            ctx.fail(dict(mech, what="transform(field=name, store=new)-missing"), f"srf[{st2!r}] is not the transformed field")
 
 
 CHECKS = {"pushforward": check_pushforward, "discrete": check_discrete, "wrapper": check_wrapper}
